@@ -599,5 +599,52 @@ fn run(ctx: &mut Ctx) {
         ctx.case(&label.clone(), |c| check_batch(c, &label, &mut rng, &shapes, &batch, 2));
     }
     let _ = Tier::Quick;
+    // a scrutinee variable matched again inside an arm of a match on itself (all nestings of two matches over
+    // three scrutinee shapes): the inner match sees the same value
+    {
+        let progs: [(&str, &str, &str); 5] = [
+            (
+                "enum-rematch-in-arm",
+                "enum E { A(int32), B, C(int32, int32) }\nfn f(e: E) -> int32 {\n    match e {\n        E::A(k) => match e { E::A(j) => k + j, _ => 0 - 1 },\n        E::B => match e { E::B => 7, _ => 0 - 4 },\n        E::C(a, b) => {\n            let r = match e { E::C(x, y) => x * y, E::A(_) => 0 - 2, E::B => 0 - 3 };\n            r + a + b\n        },\n    }\n}\nfn main() -> unit {\n    let _ = string_println(int32_to_string(f(E::A(4))) + \" \" + int32_to_string(f(E::B)) + \" \" + int32_to_string(f(E::C(2, 5))));\n    ()\n}\n",
+                "8 7 17\n",
+            ),
+            (
+                "generic-enum-rematch-in-arm",
+                "enum Opt[T] { Some(T), None }\nfn g(o: Opt[int32]) -> int32 {\n    match o {\n        Opt::Some(k) => match o { Opt::None => 0 - 1, Opt::Some(j) => k * 10 + j },\n        Opt::None => match o { Opt::None => 5, Opt::Some(_) => 0 - 2 },\n    }\n}\nfn main() -> unit {\n    let _ = string_println(int32_to_string(g(Opt::Some(3))) + \" \" + int32_to_string(g(Opt::None)));\n    ()\n}\n",
+                "33 5\n",
+            ),
+            (
+                "enum-rematch-unused-result",
+                "enum E { A(int32), B }\nfn f(e: E) -> int32 {\n    match e {\n        E::A(k) => {\n            let unused = match e { E::A(j) => j, E::B => 0 };\n            k\n        },\n        E::B => 2,\n    }\n}\nfn main() -> unit {\n    let _ = string_println(int32_to_string(f(E::A(4)) + f(E::B)));\n    ()\n}\n",
+                "6\n",
+            ),
+            (
+                "enum-rematch-three-deep",
+                "enum E { A(int32), B }\nfn f(e: E) -> int32 {\n    match e {\n        E::A(k) => match e {\n            E::A(j) => match e { E::A(i) => i + j + k, E::B => 0 - 1 },\n            E::B => 0 - 2,\n        },\n        E::B => 9,\n    }\n}\nfn main() -> unit {\n    let _ = string_println(int32_to_string(f(E::A(2))) + \" \" + int32_to_string(f(E::B)));\n    ()\n}\n",
+                "6 9\n",
+            ),
+            (
+                "enum-in-tuple-rematch",
+                "enum E { A(int32), B }\nfn f(e: E, n: int32) -> int32 {\n    match (e, n) {\n        (E::A(k), 0) => match e { E::A(j) => j + k, E::B => 0 - 1 },\n        (E::A(k), _) => k,\n        (E::B, m) => match e { E::B => m, E::A(_) => 0 - 2 },\n    }\n}\nfn main() -> unit {\n    let _ = string_println(int32_to_string(f(E::A(3), 0)) + \" \" + int32_to_string(f(E::A(3), 1)) + \" \" + int32_to_string(f(E::B, 8)));\n    ()\n}\n",
+                "6 3 8\n",
+            ),
+        ];
+        for (i, (name, src, expected)) in progs.iter().enumerate() {
+            if !ctx.mine(880_000 + i as u64) {
+                continue;
+            }
+            let label = format!("rematch/{}", name);
+            ctx.case(&label.clone(), |c| {
+                if let Some((out, term, stderr)) = crate::exec::run_source(c, "C06", &label, src, 1_000_000) {
+                    if out == *expected && matches!(term, crate::goexec::Term::Ok) {
+                        c.count("rematch_programs_ok", 1);
+                        c.nontrivial(hash_str(src));
+                    } else {
+                        c.violation(format!("C06:rematch-of-scrutinee-variable:{}", name), format!("{} prints {:?} ({:?} {}), expected {:?}", name, out, term, util::truncate(&stderr, 80), expected), json!({"label": label, "source": src, "stdout": out}));
+                    }
+                }
+            });
+        }
+    }
     crate::capi::cleanup_scratch();
 }
